@@ -13,7 +13,9 @@ def can_nl(ast):
 
 def run(ctx, rep):
     vs = []
-    for name, body in tbl_probes.LANG.items():
+    probes = dict(tbl_probes.LANG)
+    probes['scanl'] = tbl_probes.scanl_probe(ctx.art)[0]       # flex's own ~275 patterns
+    for name, body in probes.items():
         for tn, topts in (('Cem', ['ecs', 'meta-ecs']), ('Cf', ['full'])):
             if name == 'sc' and tn == 'CF': continue
             opts = ['noyywrap', '8bit', 'yylineno'] + topts
